@@ -56,7 +56,8 @@ Definition check_case (c : case) : bool :=
   match c with
   | (_, t, es, with_depth, raised) =>
       let os := model_trace t in
-      all_match with_depth os (canon [] (map (fun o => cid (ob_top o)) os)) es
+      wf_tree t
+      && all_match with_depth os (canon [] (map (fun o => cid (ob_top o)) os)) es
       && Bool.eqb (model_raised t) raised
       && negb (bad (snd (exec gen_tables (root t) (init_state gen_tables))))
   end.
